@@ -43,6 +43,9 @@
 #include <dbus/dbus-marshal-recursive.h>
 #include <dbus/dbus-marshal-validate.h>
 #include <string.h>
+#ifdef FREEDESKTOP_DBUS_VERIF
+#include <stdio.h>
+#endif
 
 static inline const char *
 nonnull (const char *maybe_null,
@@ -395,6 +398,28 @@ create_unique_client_name (BusRegistry *registry,
   int len;
 
   len = _dbus_string_get_length (str);
+
+#ifdef FREEDESKTOP_DBUS_VERIF
+  /* verification hook H5: DBUS_VERIF_NAME_COUNTER=<major>.<minor> makes the
+   * first name of this bus :<major>.<minor>, so that a test can reach the
+   * point where the minor number is used up */
+  {
+    static dbus_bool_t verif_counter_read = FALSE;
+
+    if (!verif_counter_read)
+      {
+        const char *v = _dbus_getenv ("DBUS_VERIF_NAME_COUNTER");
+        int ma, mi;
+
+        verif_counter_read = TRUE;
+        if (v != NULL && sscanf (v, "%d.%d", &ma, &mi) == 2 && ma > 0 && mi > 0)
+          {
+            next_major_number = ma;
+            next_minor_number = mi;
+          }
+      }
+  }
+#endif
 
   while (TRUE)
     {
